@@ -227,7 +227,7 @@ def write_replay(prop, sig, hit, sc, orig_sc, seed, shrink_runs):
     sc2.pop("_keep_events", None)
     k = sig_key(sig)
     h8 = hashlib.sha256(k.encode()).hexdigest()[:8]
-    path = os.path.join(VERIF_DIR, "replays", f"{prop}-{h8}-{seed}.json")
+    path = os.path.join(os.environ.get("VERIF_REPLAY_DIR") or os.path.join(VERIF_DIR, "replays"), f"{prop}-{h8}-{seed}.json")
     os.makedirs(os.path.dirname(path), exist_ok=True)
     mine = [h for h in res["hits"] if sig_key(sig_of(h)) == k]
     doc = {"property": prop, "signature": sig, "violation": jsonable(mine[0] if mine else hit),
